@@ -470,7 +470,11 @@ fn gather_builtin_features_from_flags_in_gitconfig(
     opt: &cli::Opt,
     git_config: &GitConfig,
 ) {
-    for child_feature in builtin_features.keys() {
+    // Iterate in a fixed order: the priority among several flags must not depend on the
+    // iteration order of the hash map (which differs from run to run).
+    let mut builtin_feature_names: Vec<&String> = builtin_features.keys().collect();
+    builtin_feature_names.sort();
+    for child_feature in builtin_feature_names {
         if let Some(true) = git_config.get::<bool>(&format!("{git_config_key}.{child_feature}")) {
             gather_builtin_features_recursively(child_feature, features, builtin_features, opt);
         }
@@ -509,7 +513,9 @@ fn gather_builtin_features_recursively(
                 }
             }
         }
-        for child_feature in builtin_features.keys() {
+        let mut builtin_feature_names: Vec<&String> = builtin_features.keys().collect();
+        builtin_feature_names.sort();
+        for child_feature in builtin_feature_names {
             if let Some(child_features_fn) = feature_data.get(child_feature) {
                 if let ProvenancedOptionValue::DefaultValue(OptionValue::Boolean(true)) =
                     child_features_fn(opt, &None)
